@@ -216,7 +216,7 @@ class C02(TreeCheck):
     obligations = [("main", "L2BndS", "parseBlocks_bounds"), ("main", "C01a", "C01_ordered"), ("main", "NoPanicAll", "parseBlocks_no_panic"),
                    ("main", "BlockSpans", "parseBlocks_block_spans"), ("main", "BlockSpans", "parseFull_block_spans"),
                    ("main", "InlineSpans", "parseInlines_spans"), ("main", "InlineSpans", "parseInlines_spans_reduction"), ("main", "InlineSpans", "parseInlines_spans_literal_false"),
-                   ("main", "SpanHyp", "entriesOKX_eq"), ("main", "SpanHyp", "rewrite_roots_inline_spans"), ("main", "EntriesOK", "parseBlocks_entries_basic"), ("main", "ComposeSpans", "parseBlocks_inline_spans_partial"), ("main", "ComposeSpans", "parseBlocks_entriesOKroots_partial"), ("main", "Total", "parseBlocks_total")]
+                   ("main", "SpanHyp", "entriesOKX_eq"), ("main", "SpanHyp", "rewrite_roots_inline_spans"), ("main", "EntriesOK", "parseBlocks_entries_basic"), ("main", "ComposeSpans2", "parseBlocks_inline_spans"), ("main", "ComposeSpans2", "parseBlocks_entriesOKroots"), ("main", "ComposeSpans2", "parseBlocks_paraTail"), ("main", "ComposeSpans", "parseBlocks_inline_spans_partial"), ("main", "ComposeSpans", "parseBlocks_entriesOKroots_partial"), ("main", "Total", "parseBlocks_total")]
     proj = staticmethod(proj_spans)
     what = "span structure"
 
@@ -230,18 +230,18 @@ class C02(TreeCheck):
                     for i in range(len(a)) if is_obs(a[i]) and b[i] != "1"]
         js.append(Job("entry conditions of the inline-span theorem on the implementation's pre-inline trees", js[0].cases, corr=hyp))
         return js
-    assumptions = ["partial: proved for every input: every block span is valid, lies inside its parent and consecutive block children are ordered and disjoint, root starts are non-negative (parseFull_block_spans), and the ends of blocks and inline entries are bounded by the line read so far; inline level: for every leaf block whose entry list satisfies the executable condition entriesOK (entries valid, ordered, inside the block; only Unparsed/Indent entries; Indent entries one byte wide and at most 3 columns; every entry but the last non-empty and ending in a line ending; the byte after the last entry is blank or past the source), every inline node produced by parseInlines (after emphasis processing and link surgery) has a valid span inside its parent, siblings ordered and disjoint (InlineSpans.parseInlines_spans, lifted to everything Rewrite does to a root block in SpanHyp.rewrite_roots_inline_spans); the run evaluates that condition on the implementation's own pre-inline trees, so the theorem applies to each of them given the tie of the inline parser; for arbitrary (adversarial) entry lists the statement is false, witness proved (parseInlines_spans_literal_false); the proof found defect D23 (a Text child past its LinkDestination parent), repaired in /repo (8f64b82); that the block layer always produces entriesOK entry lists is proved for every input up to one executable clause (ComposeSpans.parseBlocks_entriesOKroots_partial: all clauses except that the Source byte right after the last entry of a paragraph or setext heading is not ')'); that and the character-boundary clause are decided by the correspondence, the span oracle and the formal statement evaluated on the implementation's trees"]
+    assumptions = ["partial: proved for every input: every block span is valid, lies inside its parent and consecutive block children are ordered and disjoint, root starts are non-negative (parseFull_block_spans), and the ends of blocks and inline entries are bounded by the line read so far; inline level: for every leaf block whose entry list satisfies the executable condition entriesOK (entries valid, ordered, inside the block; only Unparsed/Indent entries; Indent entries one byte wide and at most 3 columns; every entry but the last non-empty and ending in a line ending; the byte after the last entry is blank or past the source), every inline node produced by parseInlines (after emphasis processing and link surgery) has a valid span inside its parent, siblings ordered and disjoint (InlineSpans.parseInlines_spans, lifted to everything Rewrite does to a root block in SpanHyp.rewrite_roots_inline_spans); the run evaluates that condition on the implementation's own pre-inline trees, so the theorem applies to each of them given the tie of the inline parser; for arbitrary (adversarial) entry lists the statement is false, witness proved (parseInlines_spans_literal_false); the proof found defect D23 (a Text child past its LinkDestination parent), repaired in /repo (8f64b82); that the block layer always produces entriesOK entry lists is proved for every input (ComposeSpans2.parseBlocks_entriesOKroots), so for every input and matcher every inline node produced by Rewrite has a valid span inside its parent with ordered, disjoint siblings (ComposeSpans2.parseBlocks_inline_spans): the span-structure part of the property holds at both levels for every input; what is left is the composition with the root clause into Props.C02_statement and the character-boundary clause; that and the character-boundary clause are decided by the correspondence, the span oracle and the formal statement evaluated on the implementation's trees"]
 
 
 reg(C02("C02"))
 
 
 class C03(TreeCheck):
-    obligations = [("main", "LinesAccounted", "no_duplication"), ("main", "LinesAccounted", "no_loss"), ("main", "LinesAccounted", "cover_le_one"), ("main", "LinesAccounted", "no_loss_raw_all"),
+    obligations = [("main", "ComposeC03", "C03_full"), ("main", "ComposeC03", "C03_partial"), ("main", "ComposeCols", "parseBlocks_colsOK"), ("main", "LinesAccounted", "no_duplication"), ("main", "LinesAccounted", "no_loss"), ("main", "LinesAccounted", "cover_le_one"), ("main", "LinesAccounted", "no_loss_raw_all"),
                    ("main", "LAFull", "C03_no_dup_partial"), ("main", "CoverInline", "parseInlines_coverage_partial"), ("main", "CoverInline", "parseInlines_C03"), ("main", "CoverInline", "parseInlines_coverage_refuted"), ("main", "CoverBlocks", "parseInlines_no_dup"), ("main", "L2BndS", "parseBlocks_bounds"), ("main", "NoUnpFull", "C05_noUnparsed")]
     proj = staticmethod(proj_leaves)
     what = "leaf spans"
-    assumptions = ["block layer, every input, no exception (LinesAccounted.no_duplication / no_loss): the inline entries of leaf blocks, the label/destination/title children of definitions and the list markers are pairwise disjoint and ordered, and every letter, digit or non-ASCII byte of every root's Source lies in exactly one of them: everything the block layer drops (markers, fences, closing sequences, underlines, blank lines, the punctuation of a definition) is non-textual", "after the inline pass: no byte is covered by two leaves (LAFull.C03_no_dup_partial, first conjunct of Props.chk_C03_root for every position) under the executable entry condition that the C02 check evaluates on the implementation's pre-inline trees; through the inline parser: for every leaf block meeting the entry condition and the executable column bound colsOK (the Indent entries stand for at most len src + 8 columns: true of every block-layer output, at most 3 columns per line), every textual byte of every Unparsed entry lies in exactly one leaf of parseInlines — emphasis, code spans, links and images, labels, raw HTML, autolinks, entities included (CoverInline.parseInlines_coverage_partial / parseInlines_C03); without the column bound the statement is false on the MODEL only (parseInlines_coverage_refuted: 20 consecutive 3-column Indent entries exhaust the model's reader fuel; Go has no such bound and no block-layer output looks like that); what is not proved is the composition into Props.C03_statement for whole documents (colsOK and the entry condition for every input): decided by the correspondence, the coverage oracle and the formal statement evaluated on the implementation's trees"]
+    assumptions = ["full on the model: ComposeC03.C03_full = Props.C03_statement: for every input and every root block of parseFull, no byte of Source is covered by two leaves and every letter, digit and non-ASCII byte is covered by exactly one leaf (an inline leaf or a list marker); composed from the block-layer accounting (LinesAccounted), the coverage and no-duplication theorems of the inline parser (CoverInline, LAFull) and the facts that the block layer's entry lists satisfy their hypotheses for every input (ComposeSpans2, ComposeCols, parseBlocks_leafKids)", "the parts: block layer, every input, no exception (LinesAccounted.no_duplication / no_loss): the inline entries of leaf blocks, the label/destination/title children of definitions and the list markers are pairwise disjoint and ordered, and every letter, digit or non-ASCII byte of every root's Source lies in exactly one of them: everything the block layer drops (markers, fences, closing sequences, underlines, blank lines, the punctuation of a definition) is non-textual", "after the inline pass: no byte is covered by two leaves (LAFull.C03_no_dup_partial, first conjunct of Props.chk_C03_root for every position) under the executable entry condition that the C02 check evaluates on the implementation's pre-inline trees; through the inline parser: for every leaf block meeting the entry condition and the executable column bound colsOK (the Indent entries stand for at most len src + 8 columns: true of every block-layer output, at most 3 columns per line), every textual byte of every Unparsed entry lies in exactly one leaf of parseInlines — emphasis, code spans, links and images, labels, raw HTML, autolinks, entities included (CoverInline.parseInlines_coverage_partial / parseInlines_C03); without the column bound the statement is false on the MODEL only (parseInlines_coverage_refuted: 20 consecutive 3-column Indent entries exhaust the model's reader fuel; Go has no such bound and no block-layer output looks like that); what is not proved is the composition into Props.C03_statement for whole documents (colsOK and the entry condition for every input): decided by the correspondence, the coverage oracle and the formal statement evaluated on the implementation's trees"]
 
 
 reg(C03("C03"))
@@ -266,12 +266,12 @@ reg(C05("C05"))
 
 
 class C13(TreeCheck):
-    obligations = [("main", "C13Full", "C13_partial"), ("main", "C13Full", "C13_of_exempt"), ("main", "BlockShapesAll", "parseFull_block_shapes"), ("main", "BlockShapesAll", "parseBlocks_block_shapes"), ("main", "BlockShapes", "parseBlocks_block_shapes_partial"), ("main", "BlockShapes", "parseFull_block_shapes_partial"), ("main", "BlockShapes", "parseFull_block_shapes_prefill_partial"), ("main", "BlockShapesNul", "parseFull_block_shapes_aligned_partial"), ("main", "ShapesCS", "parseCodeSpan_shape"), ("main", "ShapesA", "parseAutolink_shape"), ("main", "ShapesA", "parseCharacterEscape_shape"), ("main", "ShapesA", "parseHardLineBreakSpace_hard_iff"), ("main", "ShapesHT", "parseHTMLTag_shape"), ("main", "ShapesA", "parseDelimiterRun_shape"), ("main", "ShapesComp3", "parseInlines_codespan_shapes_partial"), ("main", "ComposeShapes", "parseBlocks_inline_shapes"), ("main", "ComposeShapes", "parseBlocks_shapeHyp"), ("main", "InlineShapes", "parseInlines_shapes"), ("main", "ShapeHyp", "bikOKX'_eq"), ("main", "ShapeHyp", "rewrite_roots_inline_shapes"),
+    obligations = [("main", "C13All", "C13_full"), ("main", "C13All", "exempt_all"), ("main", "C13Full", "C13_partial"), ("main", "C13Full", "C13_of_exempt"), ("main", "BlockShapesAll", "parseFull_block_shapes"), ("main", "BlockShapesAll", "parseBlocks_block_shapes"), ("main", "BlockShapes", "parseBlocks_block_shapes_partial"), ("main", "BlockShapes", "parseFull_block_shapes_partial"), ("main", "BlockShapes", "parseFull_block_shapes_prefill_partial"), ("main", "BlockShapesNul", "parseFull_block_shapes_aligned_partial"), ("main", "ShapesCS", "parseCodeSpan_shape"), ("main", "ShapesA", "parseAutolink_shape"), ("main", "ShapesA", "parseCharacterEscape_shape"), ("main", "ShapesA", "parseHardLineBreakSpace_hard_iff"), ("main", "ShapesHT", "parseHTMLTag_shape"), ("main", "ShapesA", "parseDelimiterRun_shape"), ("main", "ShapesComp3", "parseInlines_codespan_shapes_partial"), ("main", "ComposeShapes", "parseBlocks_inline_shapes"), ("main", "ComposeShapes", "parseBlocks_shapeHyp"), ("main", "InlineShapes", "parseInlines_shapes"), ("main", "ShapeHyp", "bikOKX'_eq"), ("main", "ShapeHyp", "rewrite_roots_inline_shapes"),
                    ("main", "EntriesOK", "parseBlocks_entries_ok_partial"), ("main", "EntriesOK", "parseFull_codespan_shapes"), ("main", "EntDefs", "parseBlocks_entries_ok_statement_false"), ("main", "Shapes", "hardbreak_line_shape"), ("main", "Shapes", "codespan_shapes_statement_false"), ("main", "Rec16", "parseListMarker_sound"), ("main", "Rec17", "parseCodeFence_sound"), ("recog", "ATXProof", "parseATXHeading_correct"),
                    ("main", "Rec15", "parseSetext_correct")]
     proj = staticmethod(proj_kindspans)
     what = "(kind, span) of every node"
-    assumptions = ["whole trees: for every input, Props.shapesB holds of every root of parseFull except on two kinds of entries (C13Full.C13_partial: every block node, every inline node of rewritten paragraphs and headings, all entries of indented code, HTML blocks and the text lines of fenced code have a valid span and the shape of their construct); the exempted entries are the info string of a fenced code block and the label / destination / title entries of a link reference definition, for which no invariant gives valid spans of the children and the character-reference shape yet; C13_of_exempt reduces Props.C13_statement to exactly that; block shapes hold for every input, NUL included, with no alignment condition (BlockShapesAll.parseFull_block_shapes)", "block level (earlier, weaker forms): for every input without NUL bytes, every block node of every root has a valid span and the shape of its construct (list marker = bullet or 1-9 digits + '.'/')'; ATX heading starts with exactly its level of '#'; setext heading ends in its underline character; fenced code starts with its fence; block quote starts with '>') (parseFull_block_shapes_partial); for every input the same holds of the root's text before NUL filling (…_prefill_partial) and of the Source itself whenever the cut positions do not split a padded NUL (…_aligned_partial); that alignment for inputs with NUL is the open obligation shared with C01", "partial: scanner-level shape theorems for every kind of leaf-like construct (parseCodeSpan_shape: equal backtick runs; parseAutolink_shape, parseHTMLTag_shape: '<...>'; parseCharacterEscape_shape: '&...;'; parseHardLineBreakSpace_hard_iff; parseDelimiterRun_shape: copies of one of * or _) and, end to end through the whole inline parser, every CodeSpanKind node of parseInlines has the code-span shape for containers satisfying the executable condition bikOK (parseInlines_codespan_shapes_partial; without a condition the statement is false for arbitrary entry lists, witness proved); the recognizer theorems give the shape at creation for list markers, fences, ATX and setext lines", "inline level, all kinds and depths: for every leaf block whose entries satisfy the executable condition bikOK' (bikOK, childless Unparsed/RawHTML/Indent entries, line-ending bytes only as a suffix of each entry), every inline node of parseInlines has a valid span and the shape of its construct (InlineShapes.parseInlines_shapes = Props.shapesI; lifted to root blocks in ShapeHyp.rewrite_roots_inline_shapes); the run evaluates that condition on the implementation's own pre-inline trees; bikOK itself is proved of the block layer's output for every input except the empty entry of a content-less ATX heading (EntriesOK.parseBlocks_entries_ok_partial; the unrestricted statement is false, witness '#' proved), and code-span shapes are proved for every input outright (EntriesOK.parseFull_codespan_shapes); and the whole hypothesis is proved of the block layer's output for every input (ComposeShapes.parseBlocks_shapeHyp), hence for every input and matcher every inline node produced by Rewrite has a valid span and the shape of its construct (ComposeShapes.parseBlocks_inline_shapes)"]
+    assumptions = ["full on the model: C13All.C13_full = Props.C13_statement: for every input every block and inline node of every root of parseFull has a valid span and the shape of its construct (list marker, ATX level, setext underline, fence, '>', code-span backticks, '<...>' of autolinks and tags, '&...;', hard-break suffix, emphasis delimiters, link/image brackets)", "the parts: for every input, Props.shapesB holds of every root of parseFull except on two kinds of entries (C13Full.C13_partial: every block node, every inline node of rewritten paragraphs and headings, all entries of indented code, HTML blocks and the text lines of fenced code have a valid span and the shape of their construct); the exempted entries are the info string of a fenced code block and the label / destination / title entries of a link reference definition, which C13All.exempt_all covers (a further whole-run invariant over the children of those entries); C13_of_exempt composes them; block shapes hold for every input, NUL included, with no alignment condition (BlockShapesAll.parseFull_block_shapes)", "block level (earlier, weaker forms): for every input without NUL bytes, every block node of every root has a valid span and the shape of its construct (list marker = bullet or 1-9 digits + '.'/')'; ATX heading starts with exactly its level of '#'; setext heading ends in its underline character; fenced code starts with its fence; block quote starts with '>') (parseFull_block_shapes_partial); for every input the same holds of the root's text before NUL filling (…_prefill_partial) and of the Source itself whenever the cut positions do not split a padded NUL (…_aligned_partial); that alignment for inputs with NUL is the open obligation shared with C01", "partial: scanner-level shape theorems for every kind of leaf-like construct (parseCodeSpan_shape: equal backtick runs; parseAutolink_shape, parseHTMLTag_shape: '<...>'; parseCharacterEscape_shape: '&...;'; parseHardLineBreakSpace_hard_iff; parseDelimiterRun_shape: copies of one of * or _) and, end to end through the whole inline parser, every CodeSpanKind node of parseInlines has the code-span shape for containers satisfying the executable condition bikOK (parseInlines_codespan_shapes_partial; without a condition the statement is false for arbitrary entry lists, witness proved); the recognizer theorems give the shape at creation for list markers, fences, ATX and setext lines", "inline level, all kinds and depths: for every leaf block whose entries satisfy the executable condition bikOK' (bikOK, childless Unparsed/RawHTML/Indent entries, line-ending bytes only as a suffix of each entry), every inline node of parseInlines has a valid span and the shape of its construct (InlineShapes.parseInlines_shapes = Props.shapesI; lifted to root blocks in ShapeHyp.rewrite_roots_inline_shapes); the run evaluates that condition on the implementation's own pre-inline trees; bikOK itself is proved of the block layer's output for every input except the empty entry of a content-less ATX heading (EntriesOK.parseBlocks_entries_ok_partial; the unrestricted statement is false, witness '#' proved), and code-span shapes are proved for every input outright (EntriesOK.parseFull_codespan_shapes); and the whole hypothesis is proved of the block layer's output for every input (ComposeShapes.parseBlocks_shapeHyp), hence for every input and matcher every inline node produced by Rewrite has a valid span and the shape of its construct (ComposeShapes.parseBlocks_inline_shapes)"]
 
     def jobs(self, seed, tier):
         js = TreeCheck.jobs(self, seed, tier)
